@@ -739,7 +739,9 @@ func (ka *KindAnalysis) finalChecks() {
 				}
 				if p.Callee(x) == itd && len(x.Args) == 2 {
 					ka1, kb := ka.kindOf(ka.exprNode[x.Args[0]]), ka.kindOf(ka.exprNode[x.Args[1]])
-					if kinded(ka1) && ka1 == kb {
+					if ka1 == KGroup && kb == KGroup {
+						bad(x, fi, "C12.K2", fmt.Sprintf("signed 32-bit difference of two FEC group ids (%s): group ids range over [0, paws/groupsize), not over the 32-bit circle, so the difference is wrong across the id wrap; scale back by the group size first", exprString(x)))
+					} else if kinded(ka1) && ka1 == kb {
 						good(x, fi, "C12.K1", fmt.Sprintf("ordering of two %s values through the signed difference", ka1))
 					} else if kinded(ka1) || kinded(kb) {
 						// one side plain: e.g. comparing with an offset value; still translation invariant only if both are the same kind
@@ -760,6 +762,11 @@ func (ka *KindAnalysis) finalChecks() {
 				if kinded(kr) {
 					bad(lc.node, lc.fn, "C12.K2", fmt.Sprintf("%s value subtracted in place from a %s value", kr, kl))
 				}
+				continue
+			}
+			if as, ok := lc.node.(*ast.AssignStmt); ok && (lc.op == "%=" || lc.op == "/=") && kl == KFecID && !kinded(kr) && len(as.Rhs) == 1 &&
+				ka.isFieldNamed(as.Rhs[0], "fecDecoder.shardSize", "fecEncoder.shardSize", "fecDecoder.paws", "fecEncoder.paws") {
+				good(lc.node, lc.fn, "C12.K2", "FEC id reduced in place by the group size or paws")
 				continue
 			}
 			if kinded(kl) || kinded(kr) {
